@@ -72,10 +72,14 @@ func resetFlags() {
 
 // RunCheck calls rapid.Check(faketb, prop) under cfg in the current working directory.
 func RunCheck(cfg CheckCfg, prop func(*rapid.T)) *Obs {
-	applyCfg(cfg)
-	defer resetFlags()
-	tb := NewFakeTB(cfg.Name)
 	obs := &Obs{}
+	defer resetFlags()
+	if rejected := tryApplyCfg(cfg); rejected != "" {
+		// a value of the documented flag domain that the library refuses: the user cannot even ask for this run
+		obs.Escaped = "flag rejected: " + rejected
+		return obs
+	}
+	tb := NewFakeTB(cfg.Name)
 	start := time.Now()
 	func() {
 		defer func() {
@@ -330,4 +334,14 @@ func trimStack(b []byte) string {
 		}
 	}
 	return strings.Join(out, " | ")
+}
+
+func tryApplyCfg(cfg CheckCfg) (rejected string) {
+	defer func() {
+		if r := recover(); r != nil {
+			rejected = fmt.Sprint(r)
+		}
+	}()
+	applyCfg(cfg)
+	return ""
 }
